@@ -137,7 +137,8 @@ Checked(src, L, its) == LET p == ParseItems(its, L.text) IN
 Vec(f, tid, src, L, feat, endPick) ==
   LET its == LexAll(L.text, Intended) IN
   [fam |-> f, tid |-> tid, text |-> L.text, tree |-> L.tree, hasTree |-> TRUE, judged |-> AllJudged(L.tree), feat |-> feat, layoutFree |-> ~HasRaw(src),
-   wordThenComment |-> WordThenComment(its, L.text), lineCommentAtEnd |-> (endPick % Len(TrivEnd)) >= Len(TrivOpt), ok |-> Checked(src, L, its)]
+   wordThenComment |-> WordThenComment(its, L.text), lineCommentAtEnd |-> (endPick % Len(TrivEnd)) >= Len(TrivOpt), ok |-> Checked(src, L, its),
+   entry |-> "Parse", first |-> << >>]
 
 Layouts(f, tid, body, full) ==
   LET src == Module(body)  k == NSlots(src)  P0 == Zero(k)  Q0 == Zero(k)  P1 == [b \in 1..k |-> 1]
@@ -201,7 +202,7 @@ BigVec(f, tid, body, d) ==
       text == r.text \o <<LF>>
       small == CountStmts(src) <= 16
   IN [fam |-> f, tid |-> tid, text |-> text, tree |-> r.tree, hasTree |-> TRUE, judged |-> TRUE, feat |-> Feat("big", 0, d), layoutFree |-> TRUE,
-      wordThenComment |-> FALSE, lineCommentAtEnd |-> FALSE,
+      wordThenComment |-> FALSE, lineCommentAtEnd |-> FALSE, entry |-> "Parse", first |-> << >>,
       ok |-> ~small \/ LET p == ParseText(text) IN Assert(p.ok /\ p.tree = r.tree, <<"spec fault: the reader does not find the tree of a directly rendered text", text>>)]
 BigLayouts(f, tid, body, n) == {BigVec(f, tid, body, d) : d \in 0..3}
 \* the same text after a byte order mark: only the first line changes (the mark is 3 bytes of it)
@@ -212,6 +213,27 @@ BigBomVec(f, tid, body, d) ==
   IN [v EXCEPT !.text = text, !.tree = tree, !.layoutFree = FALSE, !.feat = Feat("bom-big", 0, d),
                !.ok = CountStmts(Module(body)) > 16 \/ LET p == ParseText(text) IN Assert(p.ok /\ p.tree = tree, <<"spec fault: the reader does not find the tree of a directly rendered text", text>>)]
 
+\* the ways into the parser (YangChars!AllEntries): the tree and every position are those of the text of THIS call, through
+\* parse.ParseWithInterners, through New(..).Parse / NewWithInterners(..).Parse, and when the Tree has parsed another text
+\* before (`first`: a one-line module, a module of many lines, the empty text, a text that is rejected, a module after
+\* empty lines - shorter and longer than the text under test, with fewer and more lines).  Layouts in which positions
+\* matter: a line break at every boundary, a line break and four blanks, random ones, and the compact one-line form.
+EntryFirsts(u_) == << Layout(Zero(40), Zero(40), Module(<<Terms[2]>>), 0).text,
+                      LinesStmt(Module(BigBody(9, 1)), 1, 0, 3).text \o <<LF>>,
+                      << >>,
+                      C("module a { b c d }"),
+                      [i \in 1..7 |-> LF] \o Layout(Zero(40), Zero(40), Module(<<Terms[1], Terms[3]>>), 0).text \o <<LF>> >>
+Via(v, k) == LET e == OtherEntries[1 + (k % 4)]  F == EntryFirsts(0) IN
+             [v EXCEPT !.entry = e, !.first = IF e = "Reparse" THEN F[1 + ((k \div 4) % Len(F))] ELSE << >>, !.feat = [@ EXCEPT !.kind = "entry-" \o @]]
+EntryLayouts(f, tid, body) ==
+  LET src == Module(body)  k == NSlots(src)
+      uni(t) == [b \in 1..k |-> IF b % Slots = 2 THEN (IF t = 3 THEN 2 ELSE 0) ELSE t]
+      V(P, Q, e, feat, j) == Via(Vec(f, tid, src, Layout(P, Q, src, e), feat, e), j)
+  IN {V(uni(3), Zero(k), 0, Feat("lines", 0, 3), j) : j \in 0..3}
+     \cup {V(uni(6), Zero(k), 0, Feat("lines", 0, 6), tid + j) : j \in {0, 4 + 3}}
+     \cup {V(Zero(k), Zero(k), 0, Feat("base", 0, 0), tid + 8 + 3 + 4 * j) : j \in 0..2}
+     \cup {LET e == RandomElement(0..(Len(TrivEnd) - 1)) IN
+           V([b \in 1..k |-> RandomElement(0..(MaxMenu - 1))], [b \in 1..k |-> RandomElement(0..5)], e, Feat("random", 0, j), RandomElement(0..19)) : j \in 1..(IF Thorough THEN 4 ELSE 2)}
 Cases ==
   UNION {Layouts(fam, i, Small[i], FullSet(i, Small[i])) : i \in {i \in 1..Len(Small) : i % NFam = fam % NFam}}
   \cup UNION {Layouts(fam, 500 + k, ChoiceBody(k), "light2") : k \in {k \in 0..(NChoice - 1) : k % NFam = fam % NFam}}
@@ -221,6 +243,8 @@ Cases ==
   \cup UNION {UNION {BigLayouts(fam, 4000 + 4 * n + v, BigBody(n, v), n) : v \in BigVariants(n)} : n \in {n \in BigSizes : n % NFam = fam % NFam}}
   \cup UNION {BomLayouts(fam, 6000 + i, Small[i]) : i \in {i \in 1..Len(Small) : i % NFam = fam % NFam /\ (Thorough \/ i % 2 = 0)}}
   \cup UNION {{BigBomVec(fam, 6500 + n, BigBody(n, n % 2), d) : d \in 1..3} : n \in {n \in 1..40 : n % NFam = fam % NFam}}
+  \cup UNION {EntryLayouts(fam, 8000 + i, Small[i]) : i \in {i \in 1..Len(Small) : i % NFam = fam % NFam /\ (Thorough \/ i % 2 = 0)}}
+  \cup UNION {{Via(BigVec(fam, 8500 + n, BigBody(n, n % 4), 1 + ((n + j) % 3)), n + 5 * j) : j \in 0..3} : n \in {n \in 1..(IF Thorough THEN 80 ELSE 40) : n % NFam = fam % NFam}}
   \cup UNION {Layouts(fam, 1000 * (fam + 1) + j, RandBody(j), "full") : j \in 1..NTrees}
 GInit == fam \in 0..(NFam - 1) /\ done = FALSE
 GNext == /\ ~done /\ done' = TRUE /\ UNCHANGED fam
